@@ -26,9 +26,9 @@ UNITS = {
 
 # --------------------------------------------------------------------------------------------- properties
 PROPS = {
-    "C01": dict(units=["comm"], kani=["w_poll_passthrough"], level="proof",
+    "C01": dict(units=["comm", "builder"], tagged_units=["builder"], kani=["w_poll_passthrough"], level="proof",
                 bounded_scenarios=[("c02_exchange_model", "60 exchanges through the real crate: 5 child behaviours (cat, dd bs=1000, dd bs=70000, tee to stderr, slow reader) x 8 input sizes (0 .. 300000), 18 size-limit runs (6 limits x 3 sizes, two streams), one resumed time-limited exchange; a watchdog turns a hang into a failure")]),
-    "C02": dict(units=["comm"], kani=[], level="proof",
+    "C02": dict(units=["comm", "builder"], tagged_units=["builder"], kani=[], level="proof",
                 bounded_scenarios=[("c02_exchange_model", "60 exchanges through the real crate: 5 child behaviours (cat, dd bs=1000, dd bs=70000, tee to stderr, slow reader) x 8 input sizes (0 .. 300000), 18 size-limit runs (6 limits x 3 sizes, two streams), one resumed time-limited exchange; a watchdog turns a hang into a failure")]),
     "C03": dict(units=["comm"], kani=[], level="proof",
                 bounded_scenarios=[("c02_exchange_model", "60 exchanges through the real crate: 5 child behaviours (cat, dd bs=1000, dd bs=70000, tee to stderr, slow reader) x 8 input sizes (0 .. 300000), 18 size-limit runs (6 limits x 3 sizes, two streams), one resumed time-limited exchange; a watchdog turns a hang into a failure")]),
@@ -48,16 +48,17 @@ PROPS = {
     "C19": dict(units=["quote"], kani=[], level="proof",
                 bounded_scenarios=[("c19_shell_roundtrip", "1778 argument vectors (1-2 arguments of length 0..3 over the alphabet a,space,',\",$,*,\\,newline,e-acute, plus 24 hand-picked strings) printed through Debug and evaluated by the real /bin/sh; one two-stage pipeline")]),
     "C18": dict(units=["spawn"], kani=["w_reset_sigpipe"], level="proof"),
-    "C12": dict(units=["builder", "pstate"], kani=[], level="proof"),
+    "C12": dict(units=["builder", "pstate"], kani=["w_reset_sigpipe"], level="proof",
+                bounded_scenarios=[("c12_handle_cleanup", "45 owning handles through the real crate: dropped Popen, join, capture of a command and of a pipeline against 6 child behaviours (cat; ignores input; closes stdin early then writes 300000 bytes to stdout / to stderr; floods stderr then cat; closes its outputs early and keeps working) x 3 input sizes (none, 20, 1000000 bytes), the five stream adapters dropped early; each must return within seconds and leave no child running or unreaped")]),
     "C13": dict(units=["builder"], kani=[], level="proof",
                 bounded_scenarios=[("c13_pipeline_shapes", "14 pipelines: 2..5 stages in every composition shape (iterator, left-nested |, pipeline|pipeline, Pipeline|Exec) through the real crate and sh; join/capture against a first stage that closes its streams and keeps working")]),
     "C14": dict(units=["builder"], kani=[], level="proof",
-                bounded_scenarios=[("c14_partial_failure", "99 failing pipelines: n = 2..4 `cat` stages, every failing position, stdin null/pipe/data, popen/join/capture/communicate/stream_stdout/stream_stdin; promptness, no child left, descriptor count")]),
+                bounded_scenarios=[("c14_partial_failure", "123 failing pipelines: n = 2..4 `cat` stages, every failing position, stdin null/pipe/data, popen/join/capture/communicate/stream_stdout/stream_stdin, and for capture/communicate also started commands that first write 300000 bytes to their stderr; promptness, no child left, descriptor count")]),
     "C16": dict(units=["builder"], bounded_scenarios=[("c16_builder_model", "1631 command descriptions: every sequence of up to 3 of 9 builder edits (env/env_remove/env_clear/env_extend/arg), each also through a clone taken half-way, run through the real crate and /bin/sh against a plain model")],
                 kani=["r_exec_stdin_refuses", "r_exec_stdout_refuses", "r_exec_stderr_refuses", "r_exec_terminators_refuse_data", "w_exec_stdin_accepts"], level="proof"),
-    "C08": dict(units=["spawn", "builder"], kani=["w_pipe", "w_set_inheritable"], level="proof"),
+    "C08": dict(units=["spawn", "builder"], kani=["w_pipe", "w_set_inheritable", "w_make_standard_stream"], level="proof"),
     "C09": dict(units=["pstate"], kani=["w_decode_exit_status", "w_waitpid"], level="proof"),
-    "C10": dict(units=["pstate"], kani=["w_kill"], level="proof"),
+    "C10": dict(units=["pstate"], kani=["w_kill", "w_waitpid"], level="proof"),
     "C11": dict(units=["pstate"], kani=[], level="proof",
                 bounded_scenarios=[("c11_status_checks", "one run under strace: 40 waits of 900 us, 10 of 2.5 ms, one of 250 ms and 20 polls on a live child; wait4 and nanosleep system calls are counted")]),
 }
@@ -160,14 +161,14 @@ UNIT_TRUST = {
 # name -> what it proves; bounded=<text> marks a bounded stand-in (never counted as proved)
 KANI = {
     "w_decode_exit_status": dict(about="posix::decode_exit_status against the POSIX/Linux status-word encoding, all 2^32 words", tags=["C09"]),
-    "w_waitpid": dict(about="posix::waitpid = one waitpid(pid,&status,flags); result mapping; ECHILD surfaced; all pids/states/flags/status words", tags=["C09"]),
+    "w_waitpid": dict(about="posix::waitpid = one waitpid(pid,&status,flags); result mapping; ECHILD surfaced; all pids/states/flags/status words (a wait that also returns for a merely stopped child would mark a live child as finished: C10 then sends nothing to it)", tags=["C09", "C10"]),
     "w_kill": dict(about="posix::kill passes (pid, signal) unchanged, once; SIGTERM/SIGKILL/ECHILD/WNOHANG are libc's", tags=["C10", "C09"]),
-    "w_reset_sigpipe": dict(about="posix::reset_sigpipe: Ok => empty signal mask and SIGPIPE default, for every parent mask", tags=["C18"]),
+    "w_reset_sigpipe": dict(about="posix::reset_sigpipe: Ok => empty signal mask and SIGPIPE default, for every parent mask and every previous SIGPIPE disposition (C12: a writer whose reader went away must be killable by SIGPIPE, or dropping a stream adapter waits for ever)", tags=["C18", "C12"]),
     "w_poll_passthrough": dict(about="PollFd layout = libc::pollfd; poll() passes array, length and floor-ms timeout to libc::poll; test() reads revents (R6 seam of the comm unit)", tags=["C01", "C04"]),
     "w_dup2": dict(about="posix::dup2 pass-through", tags=["C05"]),
     "w_pipe": dict(about="posix::pipe: two fresh descriptors of one new pipe, read end first, BOTH BORN close-on-exec (pipe2), nothing leaked on failure", tags=["C05", "C07", "C08"]),
     "w_fork_ids": dict(about="posix::fork/setuid/setgid/setpgid pass-through and result mapping", tags=["C06", "C07"]),
-    "w_make_standard_stream": dict(about="make_standard_stream: handle on fd 0/1/2 whose drop never closes the descriptor", tags=["C05"]),
+    "w_make_standard_stream": dict(about="make_standard_stream: handle on fd 0/1/2 whose drop never closes the descriptor (C08: a closed standard descriptor number is reused by the next pipe, which a later Merge child then receives)", tags=["C05", "C08"]),
     "w_set_inheritable": dict(about="set_inheritable(f,false) = F_GETFD + F_SETFD(old|FD_CLOEXEC): descriptor becomes close-on-exec, other flags and other descriptors untouched; (f,true) is a no-op (R6 seam of the spawn unit)", tags=["C08", "C05"]),
     "b_split_path_b3": dict(about="split_path yields exactly the maximal non-empty colon-free runs of PATH, in order", bounded="PATH values of exactly 3 bytes over {':','a','b'}", tags=["C15"]),
     "r_exec_stdin_refuses": dict(about="Exec::stdin never returns for any (current, new) pair outside the accepted cases -- incl. Merge and data on an already piped stdin (refusal direction of the set-once rule)", tags=["C16"]),
